@@ -899,6 +899,7 @@ inline J plan_c17(uint64_t verif_seed, uint64_t index, int tier) {
     cfg.max_elems = (int)ro.range(1, tier ? 12 : 8);
     cfg.max_vertices = (int)ro.range(4, 24);
     cfg.simple_polys_only = false;
+    cfg.dangling = ro.chance(0.25);  // references to structures the file does not hold
     int source = (int)ro.below(3);  // 0 write_gds, 1 GdsWriter, 2 peer
     model::MLib m = gen::library(rm, cfg);
     if (source == 2) {
